@@ -366,6 +366,18 @@ def _nll_grouping(ctx, cfg):
 
 
 def _kl(ctx, cfg):
+    """KL against its contract, and its frame: the metric reads its target; the caller's tensor (or dictionary of tensors) is
+    the same afterwards, so a second metric on the same target - KL again, fidelity after KL - sees what the first one saw."""
+    seen = []
+    try:
+        _kl_body(ctx, cfg, seen)
+    finally:
+        tgs = [x for x in seen if isinstance(x, st.SymTensor)]
+        ctx.holds("KL/the caller's target is not written (no in-place operation reaches it or a view of it)", len(tgs) > 0 and all(x._stor.version == 0 for x in tgs),
+                  str([x._stor.version for x in tgs]))
+
+
+def _kl_body(ctx, cfg, _targets):
     from qucumber.utils import training_statistics as ts
     canary = getattr(ctx, "canary", None)
     n, flav, mode = cfg["n"], cfg["flavour"], cfg["mode"]
@@ -391,6 +403,7 @@ def _kl(ctx, cfg):
                     z = m.rho[i, j] * alg.inv(m.Z)
                     own[0, i, j], own[1, i, j] = alg.re(z), alg.im(z)
         t = st.SymTensor(own)
+        _targets.append(t)
         _assume_born_positive(m, n, uc)
         for b in [None] + strings:
             with m.stubs():
@@ -399,6 +412,7 @@ def _kl(ctx, cfg):
             ctx.eq("lemma/KL against the model's own state == 0[basis=%s]" % b, _val(v), ZERO, z3_confirm=False)
         return
     t = _sym_vec(D, "t") if flav == "pure" else _sym_herm(D, "t")
+    _targets.append(t)
     tc = U.cdec(t._arr)
 
     def target_probs(Ud):
@@ -459,6 +473,7 @@ def _kl(ctx, cfg):
                     for j in range(D):
                         a[0, i, j], a[1, i, j] = alg.re(z[i, j]), alg.im(z[i, j])
             td[b] = st.SymTensor(a)
+            _targets.append(td[b])
         with m.stubs():
             v = ts.KL(m.state, td, space)
             v2 = ts.KL(m.state, td, space, bases=list(reversed(bases)))
